@@ -334,7 +334,7 @@ pub fn run(args: &Args) -> Option<Report> {
         max_depth: cfg.depth,
         shard: args.shard,
         shard_depth: 3,
-        wall_cap_s: args.opt_u("wall", if args.tier == "quick" { 40 } else { 1500 }) as f64,
+        wall_cap_s: args.opt_u("wall", if args.tier == "quick" { 40 } else { 600 }) as f64,
         exec_cap: args.opt_u("execs", u64::MAX / 2),
         prune: cfg.prune,
         n_samples: 3,
